@@ -19,6 +19,7 @@ META = {
         "R14.3": "Map: element 0 then element 1 with MapError(_, 0) / MapError(_, 1), outputs in input order; Vec: into_iter().enumerate().map(f.apply(x) tagged with the enumerate index).collect() with no reordering adaptor",
         "R14.4": "RepeatWith: repeat_with(|| f.apply(input.clone(), rng)).take(N) collected into Result<Vec,_>, N the const generic; unreachable! discharged by take(N)",
         "R14.5": "every inner apply/mutate/recombine/select receives the function's own rng parameter",
+        "R14.7": "the error names the failing part: MapError's message displays the stored element index itself (field 1, unmodified); ThenError/AndError messages say `first` for First and `second` for Second",
         "R14.6": "transparent wrappers are single forwarders; Identity returns its input; Constant returns value.clone(); GenomeExtractor returns genome().clone(); Composable::then/and/then_map/apply_twice/apply_n_times/map/wrap build the documented combinator with (self, op) in order",
     },
     "trusted_base": ["rustc MIR construction and `?` desugaring (Try::branch / FromResidual)", "std iterator adaptors into_iter/enumerate/map/take/repeat_with/collect::<Result<_,_>> (in-order, short-circuiting)", "uecfacts driver + uecheck rule engine"],
@@ -112,7 +113,44 @@ def check_two_stage(ctx, f, rule, name, specs, ok_shape):
     ctx.check(seen_full >= 1 and seen_stop >= 1, rule, "%s/has-success-and-early-exit-paths" % name, "%d success, %d early-exit path(s)" % (seen_full, seen_stop), at)
 
 
+def check_error_messages(ctx):
+    """R14.7: the only public way to learn which element / part failed is the error's message (the fields are private)"""
+    C = "ec_core::operator::composable::"
+    f = ctx.fn("<" + C + "map::MapError<T> as std::fmt::Display>::fmt")
+    ps = [p for p in ctx.paths(f) if p.end != "unreachable"]
+    ok = len(ps) == 1 and ps[0].end == "return"
+    shown = []
+    if ok:
+        for c in ps[0].calls():
+            if callee_is(c, "Argument::new_display", "Argument::new_debug", "Argument::new_lower_exp", "Argument::new_upper_hex", "Argument::new_lower_hex"):
+                shown.append(peel(c[3][0], ()))
+        others = [c for c in ps[0].calls() if not callee_is(c, "Argument::new_display", "Argument::new_debug", "Arguments::new", "Arguments::new_const", "Formatter::write_fmt", "Formatter::write_str")]
+        idx = ("field", ("param", 1), 1, None)
+        norm = lambda e: ("field", peel(e[1], ()), e[2], None) if e[0] == "field" else e
+        ok = len(shown) == 1 and norm(shown[0]) == idx and not others
+    ctx.check(ok, "R14.7", "MapError/message-displays-the-stored-index", "; ".join(short(x, 3) for x in shown) or "-", f.at(),
+              bad_detail="MapError's Display must format exactly its index field (self.1), nothing derived from it; displayed: %s; other calls: %s" % (
+                  [short(x, 4) for x in shown], [short(c, 2) for p in ps for c in p.calls()][:6]))
+    for mod, ty in (("then", "ThenError"), ("and", "AndError")):
+        g = ctx.fn("<" + C + "%s::%s<T, U> as std::fmt::Display>::fmt" % (mod, ty))
+        words = {}
+        good = True
+        for p in [p for p in ctx.paths(g) if p.end != "unreachable"]:
+            d = [c for c in p.conds if c[0][0] == "discr" and peel(c[0][1], ()) == ("param", 1)]
+            texts = [str(x[2]).lower() for c in p.calls() for x in subexprs(c) if x[0] == "const" and isinstance(x[2], (str, bytes))]
+            txt = " ".join(texts)
+            if not d or d[0][1] not in (0, 1):
+                good = False
+                continue
+            want, other = ("first", "second") if d[0][1] == 0 else ("second", "first")
+            words[d[0][1]] = (want in txt, other in txt)
+            good = good and want in txt and other not in txt and not [c for c in p.calls() if not callee_is(c, "Formatter::write_str", "Formatter::write_fmt", "Arguments::new", "Arguments::new_const")]
+        ctx.check(good and set(words) == {0, 1}, "R14.7", "%s/message-names-its-own-part" % ty, "First -> 'first', Second -> 'second'", g.at(),
+                  bad_detail="%s's Display must say `first` exactly for First and `second` exactly for Second; found %s" % (ty, words))
+
+
 def check(ctx):
+    check_error_messages(ctx)
     from .ctors import check_table
     check_table(ctx, "C14", "R14.6")
     F = ctx.F
@@ -148,32 +186,81 @@ def check(ctx):
             return match(p.ret, Agg("Result::Ok", Agg(okagg, ok_of(aps[0]), ok_of(aps[1]))))
         check_two_stage(ctx, f, "R14.3", "Map<%s>" % ty, [("f", lambda prev, e=elem(0): (lambda a: a == e), "MapError", (0,)), ("f", lambda prev, e=elem(1): (lambda a: a == e), "MapError", (1,))], map_ok)
 
-    # ---------------- Map (Vec) -----------------------------------------------------
-    f = ctx.fn("<ec_core::operator::composable::map::Map<F> as " + OP % "std::vec::Vec<Input>")
-    ps = return_paths(ctx.paths(f))
-    b = {}
-    good = len(ps) == 1 and match(ps[0].ret, Call("Iterator::collect", Call("Iterator::map", Call("Iterator::enumerate", Call("IntoIterator::into_iter", Param(2), nargs=1), nargs=1), Bind("clo"), nargs=2), nargs=1), b)
-    good = good and len(ps[0].calls()) == 4
-    ctx.check(good, "R14.3", "Map<Vec>/into_iter.enumerate.map.collect", short(ps[0].ret, 6) if ps else "-", f.at(),
-              bad_detail="expected collect(map(enumerate(into_iter(input)), closure)) and nothing else; extracted " + "; ".join(short(p.ret, 9) for p in ps))
-    if good:
-        clo = b["clo"]
-        cps = closure_paths(ctx, clo)
-        ok2 = False
-        detail = "-"
-        if cps and len(cps) == 1:
-            r = cps[0].ret
-            detail = short(r, 7)
-            b2 = {}
-            pat = Call("Result::map_err", Call("Operator::apply", lambda a: derives_from_self(a, field="f"), lambda a: a[0] == "field" and a[2] == 1 and a[1][:2] == ("cparam", 2) and a[1][2] == clo[2],
-                                                lambda a: rng_passthrough(a, 3), nargs=3), Bind("tag"), nargs=2)
-            if match(r, pat, b2) and b2["tag"][0] == "agg" and b2["tag"][1] == "closure":
-                tps = closure_paths(ctx, b2["tag"])
-                if tps and len(tps) == 1:
-                    # MapError(e, i) with i = the enumerate index = field 0 of the outer closure's argument
-                    ok2 = match(tps[0].ret, Agg("MapError::MapError", CParam(2), lambda x: peel(x, ())[0] == "field" and peel(x, ())[2] == 0 and peel(x, ())[1][:2] == ("cparam", 2) and peel(x, ())[1][2] == clo[2]))
-                    detail += " / tag: " + short(tps[0].ret, 5)
-        ctx.check(ok2, "R14.3", "Map<Vec>/closure-applies-f-to-element-tagged-with-enumerate-index", detail, f.at())
+    def map_vec_collect(ctx):
+        # ---------------- Map (Vec) -----------------------------------------------------
+        f = ctx.fn("<ec_core::operator::composable::map::Map<F> as " + OP % "std::vec::Vec<Input>")
+        ps = return_paths(ctx.paths(f))
+        b = {}
+        good = len(ps) == 1 and match(ps[0].ret, Call("Iterator::collect", Call("Iterator::map", Call("Iterator::enumerate", Call("IntoIterator::into_iter", Param(2), nargs=1), nargs=1), Bind("clo"), nargs=2), nargs=1), b)
+        good = good and len(ps[0].calls()) == 4
+        ctx.check(good, "R14.3", "Map<Vec>/into_iter.enumerate.map.collect", short(ps[0].ret, 6) if ps else "-", f.at(),
+                  bad_detail="expected collect(map(enumerate(into_iter(input)), closure)) and nothing else; extracted " + "; ".join(short(p.ret, 9) for p in ps))
+        if good:
+            clo = b["clo"]
+            cps = closure_paths(ctx, clo)
+            ok2 = False
+            detail = "-"
+            if cps and len(cps) == 1:
+                r = cps[0].ret
+                detail = short(r, 7)
+                b2 = {}
+                pat = Call("Result::map_err", Call("Operator::apply", lambda a: derives_from_self(a, field="f"), lambda a: a[0] == "field" and a[2] == 1 and a[1][:2] == ("cparam", 2) and a[1][2] == clo[2],
+                                                    lambda a: rng_passthrough(a, 3), nargs=3), Bind("tag"), nargs=2)
+                if match(r, pat, b2) and b2["tag"][0] == "agg" and b2["tag"][1] == "closure":
+                    tps = closure_paths(ctx, b2["tag"])
+                    if tps and len(tps) == 1:
+                        # MapError(e, i) with i = the enumerate index = field 0 of the outer closure's argument
+                        ok2 = match(tps[0].ret, Agg("MapError::MapError", CParam(2), lambda x: peel(x, ())[0] == "field" and peel(x, ())[2] == 0 and peel(x, ())[1][:2] == ("cparam", 2) and peel(x, ())[1][2] == clo[2]))
+                        detail += " / tag: " + short(tps[0].ret, 5)
+            ctx.check(ok2, "R14.3", "Map<Vec>/closure-applies-f-to-element-tagged-with-enumerate-index", detail, f.at())
+
+
+    def map_vec_loop(ctx):
+        """the same clauses for the explicit loop: for (index, element) in input.into_iter().enumerate() { out.push(f.apply(element, rng)
+        .map_err(|e| MapError(e, index))?) } Ok(out) - in order, first failure leaves, the index in the error is the enumerate index"""
+        from . import ckit as K
+        f = ctx.fn("<ec_core::operator::composable::map::Map<F> as " + OP % "std::vec::Vec<Input>")
+        paths = K.live(ctx.cpaths(f))
+        is_nx = lambda c: callee_is(c, "Iterator::next") and match(c[3][0], Through(Call("IntoIterator::into_iter", Call("Iterator::enumerate", Call("IntoIterator::into_iter", Param(2), nargs=1), nargs=1), nargs=1))) or \
+            (callee_is(c, "Iterator::next") and match(c[3][0], Through(Call("Iterator::enumerate", Call("IntoIterator::into_iter", Param(2), nargs=1), nargs=1))))
+        good = bool(paths)
+        seen = set()
+        for p in paths:
+            nx = [c for c in p.calls() if is_nx(c)]
+            ap = K.calls_of(p, "Operator::apply")
+            kind, pay = K.outcome(p)
+            if len(nx) != 1:
+                good = False
+                continue
+            if K.discr_is(p, lambda o: o == nx[0], 0):
+                # input exhausted: Ok(out), nothing applied on this last round
+                out = K.strip(pay, calls=()) if pay is not None else None
+                good = good and kind == "ok" and not ap and out is not None and callee_is(out, "Vec::with_capacity", "Vec::new")
+                seen.add("done")
+                continue
+            elem = ("field", ("field", nx[0], 0, "Some"), 1, None)
+            idx = ("field", ("field", nx[0], 0, "Some"), 0, None)
+            ok1 = len(ap) == 1 and derives_from_self(ap[0][3][0], field="f") and K.strip(ap[0][3][1], calls=()) == elem and rng_passthrough(ap[0][3][2], 3)
+            if not ok1:
+                good = False
+                continue
+            if K.discr_is(p, lambda o: o == ap[0], 0):
+                push = K.calls_of(p, "Vec::push")
+                good = good and p.end.startswith("loop:") and len(push) == 1 and K.strip(push[0][3][1], calls=()) == ("field", ap[0], 0, "Ok") and callee_is(K.strip(push[0][3][0], calls=()), "Vec::with_capacity", "Vec::new")
+                seen.add("push")
+            elif K.discr_is(p, lambda o: o == ap[0], 1):
+                e = K.conv_free(pay) if pay is not None else None
+                good = good and kind == "err" and e is not None and e[0] == "agg" and path_ends(e[2], "MapError::MapError") and len(e[3]) == 2 and \
+                    K.strip(e[3][0], calls=()) == ("field", ap[0], 0, "Err") and K.strip(e[3][1], calls=()) == idx and not K.calls_of(p, "Vec::push")
+                seen.add("err")
+            else:
+                good = False
+        ctx.check(good and seen == {"done", "push", "err"}, "R14.3", "Map<Vec>/into_iter.enumerate.map.collect", "explicit loop over input.into_iter().enumerate(): apply, push on Ok, return MapError(e, index) on Err", f.at(),
+                  bad_detail="Map over a Vec must apply f to each element in order, stop at the first failure with MapError(error, enumerate index) and collect the outputs in order")
+        ctx.check(good and seen == {"done", "push", "err"}, "R14.3", "Map<Vec>/closure-applies-f-to-element-tagged-with-enumerate-index", "element = enumerate item .1, index = .0", f.at())
+
+    from . import ckit as _K3
+    _K3.either(ctx, map_vec_collect, map_vec_loop)
 
     # ---------------- RepeatWith -------------------------------------------------------
     f = ctx.fn("<ec_core::operator::composable::repeat_with::RepeatWith<F, N> as " + OP % "Input")
